@@ -520,13 +520,16 @@ def rules(repo=None):
 
 
 EXPLANATION = (
-    "R1: read() and get_continuous_blocks() call _get_file_list, _read and _combine_blocks with identical arguments except "
-    "len_only; the two branches of _read use the same slice bounds and key; _combine_blocks specialised for len_only=True is the image "
-    "of its specialisation for len_only=False under array -> len(array) (concatenate -> +, len(x) -> x). R2: the three guards of read_vector_raw raise IOError on every path to its return; the wrappers reach data only "
-    "through it. R3: no squeeze/ravel/flatten of the array between taking it from read() and the length guard. R4: exact file "
-    "lookup (C01.R3). R5: the subchannel branch indexes rf_data with the same row slice. R6: numpy's promotion table joined with "
-    "the element types: which conversions are exact. R7: block-index entries only through int(). R8: every attribute _read stores is either loaded in the cache-miss branch keyed by the file name or never read before it is stored in the same call (no query-history state). Does NOT decide the split/merge "
-    "relation or bounds arithmetic.")
+    'R1: read() and get_continuous_blocks() call _get_file_list, _read and _combine_blocks with identical arguments '
+    'except len_only; the two branches of _read use the same slice bounds and key; _combine_blocks specialised for '
+    'len_only=True is the image of its specialisation for len_only=False under array -> len(array) (concatenate -> +, '
+    'len(x) -> x). R2: the three guards of read_vector_raw raise IOError on every path to its return; the wrappers reach '
+    'data only through it. R3: no squeeze/ravel/flatten of the array between taking it from read() and the length guard. '
+    "R4: exact file lookup (C01.R3). R5: the subchannel branch indexes rf_data with the same row slice. R6: numpy's "
+    'promotion table joined with the element types: which conversions are exact. R7: block-index entries only through '
+    'int(). R8: every attribute _read stores is either loaded in the cache-miss branch keyed by the file name or never '
+    'read before it is stored in the same call (no query-history state).  Does NOT decide the split/merge relation or '
+    'bounds arithmetic.')
 TECHNIQUE = ('Python ast; sibling comparison of the data and length pipelines (homomorphic image under len); CFG must-pass for guards; float-taint; promotion table')
 ASSUMPTIONS = ["numpy.promote_types table for float x integer types (documented)", "h5py dataset slicing returns rows [a, b)"]
 FILES = ["python/digital_rf/digital_rf_hdf5.py"]
